@@ -180,6 +180,8 @@ Section RunnerProofs.
   Definition nok p t := count_true (is_ok p) t.      (* ... that succeeded *)
   Definition ntell p t := count_true (is_tell p) t.  (* tells of pid p *)
 
+  Ltac cn := unfold nsub, nerr, nok, ntell in *; cbn [count_true is_sub is_err is_ok is_tell] in *.
+
   Lemma count_true_app {A} (f : A -> bool) l1 l2 : count_true f (l1 ++ l2) = count_true f l1 + count_true f l2.
   Proof. induction l1; cbn [app count_true]; lia. Qed.
 
@@ -209,6 +211,33 @@ Section RunnerProofs.
   Definition asked p x t : Prop := exists n ret, In (TAsk n ret) t /\ In (p, x) ret.
   Definition fdone fid t : Prop := exists q o, In (TDone fid q o) t.
 
+  (* a property of every event relative to the events before it *)
+  Fixpoint all_suffix (Q : tev -> list tev -> Prop) t : Prop :=
+    match t with [] => True | e :: old => Q e old /\ all_suffix Q old end.
+
+  Lemma all_suffix_split Q t : all_suffix Q t <-> forall later e earlier, t = later ++ e :: earlier -> Q e earlier.
+  Proof.
+    induction t as [|a t IH]; cbn [all_suffix].
+    - split; [intros _ [|? ?] ? ? H; discriminate|auto].
+    - rewrite IH. split.
+      + intros [Ha Ht] [|b later] e earlier H; cbn [app] in H; inversion H; subst; [exact Ha|eapply Ht; reflexivity].
+      + intros H. split; [apply (H [] a t); reflexivity|].
+        intros later e earlier ->. apply (H (a :: later) e earlier). reflexivity.
+  Qed.
+
+  (* what holds of each event when it is emitted *)
+  Definition Pe e earlier : Prop :=
+    match e with
+    | TSubmit fid pid x => ntell pid earlier = 0 /\ asked pid x earlier
+    | TDone fid pid o =>
+        ntell pid earlier = 0 /\ (exists x, In (TSubmit fid pid x) earlier) /\ ~ fdone fid earlier /\
+        match o with Ok _ => nok pid earlier = 0 | Err => True end
+    | TTell pid x y =>
+        exists fid older, earlier = TDone fid pid (Ok y) :: older /\ In (TSubmit fid pid x) older /\
+                          asked pid x older /\ ntell pid older = 0
+    | _ => True
+    end.
+
   (* ---- the accounting invariant --------------------------------------- *)
   Record Inv s : Prop := {
     i_fids : forall fid, In fid (akeys (pend s)) -> fid < nfid s;
@@ -233,15 +262,16 @@ Section RunnerProofs.
     i_sub_acc : forall fid pid x, In (TSubmit fid pid x) (tr s) ->
       fid < nfid s /\ ((exists o, In (TDone fid pid o) (tr s)) \/ aget fid (pend s) = Some pid);
     i_idp_asked : forall p x, aget p (idp s) = Some x -> asked p x (tr s);
-    i_done_lt : forall fid q o, In (TDone fid q o) (tr s) -> fid < nfid s
+    i_done_lt : forall fid q o, In (TDone fid q o) (tr s) -> fid < nfid s;
+    i_tr : all_suffix Pe (tr s)
   }.
   Arguments i_fids {s}. Arguments i_pend_nd {s}. Arguments i_retry_nd {s}. Arguments i_idp_lt {s}.
   Arguments i_fresh {s}. Arguments i_told {s}. Arguments i_live {s}. Arguments i_dom {s}.
-  Arguments i_pend_sub {s}. Arguments i_sub_acc {s}. Arguments i_idp_asked {s}. Arguments i_done_lt {s}.
+  Arguments i_pend_sub {s}. Arguments i_sub_acc {s}. Arguments i_idp_asked {s}. Arguments i_done_lt {s}. Arguments i_tr {s}.
 
   Lemma Inv_init l0 : Inv (init P V c l0).
   Proof.
-    unfold init. constructor; sp; cbn [akeys map aget pvals cnt nsub nerr nok ntell count_true In]; intros;
+    unfold init. constructor; sp; cbn [akeys map aget pvals cnt nsub nerr nok ntell count_true In all_suffix]; intros;
       try solve [tauto | constructor | lia | discriminate | congruence].
   Qed.
 
@@ -352,6 +382,9 @@ Section RunnerProofs.
       destruct (i_idp_asked HI _ _ Hx) as (n & ret & Hin & Hr). exists n, ret. split; [right; exact Hin|exact Hr].
     - intros f q o Hin. rewrite Ft in Hin. rewrite Ff. destruct Hin as [Heq|Hin]; [|apply (i_done_lt HI _ _ _ Hin)].
       inversion Heq; subst. apply (i_fids HI). apply aget_In_keys. congruence.
+    - rewrite Ft. cbn [all_suffix Pe]. split; [|apply (i_tr HI)].
+      destruct (i_pend_sub HI _ _ H) as (x & Hx & Hin & Hnd).
+      split; [exact Hnt|]. split; [exists x; exact Hin|]. split; [exact Hnd|exact I].
   Qed.
 
   (* ---- _process_futures, success branch -------------------------------- *)
@@ -436,6 +469,11 @@ Section RunnerProofs.
     - intros f q o Hin. rewrite Ft in Hin. rewrite Ff.
       destruct Hin as [Heq|[Heq|Hin]]; [discriminate| |apply (i_done_lt HI _ _ _ Hin)].
       inversion Heq; subst. apply (i_fids HI). apply aget_In_keys. congruence.
+    - rewrite Ft. cbn [all_suffix Pe]. destruct (i_pend_sub HI _ _ H) as (x1 & Hx1 & Hin & Hnd).
+      assert (x1 = x) by congruence. subst x1.
+      split; [|split; [|apply (i_tr HI)]].
+      + exists fid, (tr s). split; [reflexivity|]. split; [exact Hin|]. split; [apply (i_idp_asked HI); exact Hx|exact Hnt].
+      + split; [exact Hnt|]. split; [exists x; exact Hin|]. split; [exact Hnd|exact Hok].
   Qed.
 
   (* one iteration of the for loop keeps the invariant *)
@@ -513,7 +551,7 @@ Section RunnerProofs.
       + inversion Hx; subst v. apply (i_live HI _ _ Ei).
       + assert (Hr : nid s <= p) by (apply Hnew; congruence).
         destruct (i_fresh HI _ Hr) as (F1 & F2 & F3 & F4). destruct (i_dom HI _ Ei) as (D1 & D2 & D3).
-        unfold E, pvals in *. sp. rewrite D1, D2. fin.
+        unfold E, pvals in *. sp. rewrite D1, D2. cn. fin.
     - intros p Hn. apply (i_dom HI). apply Hnone. exact Hn.
     - intros f q Hq. destruct (i_pend_sub HI _ _ Hq) as (x & Hx & Hin & Hnd). exists x.
       split; [apply Hold; exact Hx|]. split; [right; exact Hin|].
@@ -525,6 +563,7 @@ Section RunnerProofs.
         exists n', ret. split; [right; exact Hin|exact Hr].
       + exists m, new. split; [left; reflexivity|]. apply aget_Some_In. exact Hx.
     - intros f q o [Heq|Hin]; [discriminate|]. apply (i_done_lt HI _ _ _ Hin).
+    - cbn [all_suffix Pe]. split; [exact I|apply (i_tr HI)].
   Qed.
 
   (* ---- _submit ---------------------------------------------------------- *)
@@ -548,10 +587,10 @@ Section RunnerProofs.
     { intros p. unfold pvals. rewrite map_app, cnt_app. cbn [map snd cnt]. lia. }
     assert (Hpl : pid < nid s) by (apply (i_idp_lt HI); congruence).
     constructor; sp; unfold pvals; sp.
-    - intros f Hf. rewrite akeys_app in Hf. apply in_app_or in Hf. destruct Hf as [Hf|[<-|[]]]; [|lia].
+    - intros f Hf. rewrite akeys_app in Hf. apply in_app_or in Hf. cbn [akeys map fst In] in Hf. destruct Hf as [Hf|[<-|[]]]; [|lia].
       pose proof (i_fids HI _ Hf). lia.
     - rewrite akeys_app. cbn [akeys map fst]. apply NoDup_app_disj; [apply (i_pend_nd HI)|repeat constructor; tauto|].
-      intros f Hf [<-|[]]. pose proof (i_fids HI _ Hf). lia.
+      intros f Hf Hf2. cbn [map fst In] in Hf2. destruct Hf2 as [<-|[]]. pose proof (i_fids HI _ Hf). lia.
     - apply (i_retry_nd HI).
     - apply (i_idp_lt HI).
     - intros p Hp. unfold nsub. cbn [count_true is_sub]. deq p pid; [lia|]. apply (i_fresh HI). exact Hp.
@@ -585,4 +624,1149 @@ Section RunnerProofs.
     - intros p x1 Hx1. destruct (i_idp_asked HI _ _ Hx1) as (n' & ret & Hin & Hr).
       exists n', ret. split; [right; exact Hin|exact Hr].
     - intros f q o [Heq|Hin]; [discriminate|]. pose proof (i_done_lt HI _ _ _ Hin). lia.
+    - cbn [all_suffix Pe]. split; [|apply (i_tr HI)].
+      destruct (i_live HI _ _ Hx) as (_ & H2 & _). split; [exact H2|apply (i_idp_asked HI); exact Hx].
   Qed.
+
+  (* fields the invariant does not read *)
+  Lemma Inv_set_log s v : Inv s -> Inv (set_log s v).
+  Proof. intros [H1 H2 H3 H4 H5 H6 H7 H8 H9 H10 H11 H12 H13]. constructor; assumption. Qed.
+  Lemma Inv_set_ph s v : Inv s -> Inv (set_ph s v).
+  Proof. intros [H1 H2 H3 H4 H5 H6 H7 H8 H9 H10 H11 H12 H13]. constructor; assumption. Qed.
+  Lemma Inv_set_lst s v : Inv s -> Inv (set_lst s v).
+  Proof. intros [H1 H2 H3 H4 H5 H6 H7 H8 H9 H10 H11 H12 H13]. constructor; assumption. Qed.
+
+  (* ---- the submission loop of _get_futures ------------------------------ *)
+  Fixpoint subs_list (f : nat) (pids : list nat) (d : list (nat * P)) : list (nat * nat * P) :=
+    match pids with
+    | [] => []
+    | p :: rest => match aget p d with
+                   | Some x => (f, p, x) :: subs_list (S f) rest d
+                   | None => subs_list f rest d
+                   end
+    end.
+  Definition sub_ev (t : nat * nat * P) : tev := TSubmit (fst (fst t)) (snd (fst t)) (snd t).
+  Definition sub_fp (t : nat * nat * P) : nat * nat := fst t.
+
+  Lemma submit_fold_shape pids : forall s,
+    let s' := fold_left (@submit_pid P V L) pids s in
+    let sl := subs_list (nfid s) pids (idp s) in
+    pend s' = pend s ++ map sub_fp sl /\ tr s' = rev (map sub_ev sl) ++ tr s /\
+    nfid s' = nfid s + length sl /\ retry s' = retry s /\ tbs s' = tbs s /\ idp s' = idp s /\
+    nid s' = nid s /\ log s' = log s /\ lst s' = lst s /\ ph s' = ph s.
+  Proof.
+    induction pids as [|p pids IH]; intros s; cbn [fold_left subs_list].
+    - cbn [map rev app length]. rewrite app_nil_r, Nat.add_0_r. repeat split.
+    - assert (Hsp : submit_pid s p = match aget p (idp s) with Some x => sub_step s p x | None => s end) by reflexivity.
+      rewrite Hsp. destruct (aget p (idp s)) as [x|] eqn:Ex; [|apply IH].
+      specialize (IH (sub_step s p x)). unfold sub_step in *.
+      sp. destruct IH as (A1 & A2 & A3 & A4 & A5 & A6 & A7 & A8 & A9 & A10).
+      cbn [map rev length sub_fp sub_ev fst snd]. rewrite A1, A2, A3, <- !app_assoc. cbn [app].
+      repeat split; try assumption. lia.
+  Qed.
+
+  Lemma subs_list_all f pids d : (forall p, In p pids -> aget p d <> None) ->
+    map (fun z : nat * nat * P => snd (fst z)) (subs_list f pids d) = pids /\ length (subs_list f pids d) = length pids /\
+    map sub_fp (subs_list f pids d) = combine (seq f (length pids)) pids.
+  Proof.
+    revert f. induction pids as [|p pids IH]; intros f H; cbn [subs_list map length seq combine]; [auto|].
+    destruct (aget p d) as [x|] eqn:Ex; [|exfalso; apply (H p); [left; reflexivity|exact Ex]].
+    destruct (IH (S f)) as (A1 & A2 & A3); [intros q Hq; apply H; right; exact Hq|].
+    cbn [map length fst snd sub_fp]. rewrite A1, A2, A3. auto.
+  Qed.
+
+  Lemma Inv_submit_fold pids : forall s, Inv s -> NoDup pids ->
+    (forall p, In p pids -> aget p (idp s) <> None /\ cnt p (pvals s) = 0 /\
+                            (aget p (tbs s) <> None -> aget p (retry s) <> None)) ->
+    Inv (fold_left (@submit_pid P V L) pids s).
+  Proof.
+    induction pids as [|p pids IH]; intros s HI Hnd Hall; cbn [fold_left]; [exact HI|].
+    inversion Hnd as [|? ? Hnotin Hnd']; subst.
+    destruct (Hall p (or_introl eq_refl)) as (Hp1 & Hp2 & Hp3).
+    destruct (aget p (idp s)) as [x|] eqn:Ex; [|congruence].
+    rewrite (submit_pid_eq _ _ _ Ex). apply IH; [apply Inv_sub_step; assumption|exact Hnd'|].
+    intros q Hq. destruct (Hall q (or_intror Hq)) as (Hq1 & Hq2 & Hq3).
+    unfold sub_step, pvals. sp. split; [exact Hq1|]. split; [|exact Hq3].
+    rewrite map_app, cnt_app. cbn [map snd cnt]. unfold pvals in Hq2.
+    deq q p; [subst; contradiction|lia].
+  Qed.
+
+  Lemma NoDup_firstn {A} n (l : list A) : NoDup l -> NoDup (firstn n l).
+  Proof.
+    revert n. induction l as [|a l IH]; intros [|n] H; cbn [firstn]; try constructor.
+    - inversion H; subst. intros Hin. apply In_firstn in Hin. contradiction.
+    - inversion H; subst. auto.
+  Qed.
+
+  Lemma retry_candidates_spec s p : In p (retry_candidates s) <-> In p (akeys (retry s)) /\ cnt p (pvals s) = 0.
+  Proof.
+    unfold retry_candidates. rewrite filter_In, negb_true_iff.
+    rewrite cnt_0. unfold pvals. split; intros [H1 H2]; (split; [exact H1|]).
+    - intros Hin. apply nat_mem_In in Hin. congruence.
+    - destruct (nat_mem p (map snd (pend s))) eqn:Em; [|reflexivity]. apply nat_mem_In in Em. contradiction.
+  Qed.
+
+  Lemma retry_candidates_nodup s : Inv s -> NoDup (retry_candidates s).
+  Proof. intros HI. apply NoDup_filter, (i_retry_nd HI). Qed.
+
+  (* what _get_futures does, in terms of the state before *)
+  Definition gf_n s := M - length (pend s).
+  Definition gf_R s := firstn (gf_n s) (retry_candidates s).
+  Definition gf_m s := gf_n s - length (gf_R s).
+  Definition gf_asks s : bool := length (gf_R s) <? gf_n s.
+  Definition gf_pts s : list P := if gf_asks s then fst (l_ask lrn (lst s) (gf_m s)) else [].
+  Definition gf_new s := assign_ids (nid s) (gf_pts s).
+  Definition gf_pids s := gf_R s ++ map fst (gf_new s).
+  Definition gf_subs s := subs_list (nfid s) (gf_pids s) (idp s ++ gf_new s).
+
+  Lemma get_futures_spec s : Inv s ->
+    let s' := get_futures lrn c s in
+    Inv s' /\
+    pend s' = pend s ++ combine (seq (nfid s) (length (gf_pids s))) (gf_pids s) /\
+    tr s' = rev (map sub_ev (gf_subs s)) ++ (if gf_asks s then [TAsk (gf_m s) (gf_new s)] else []) ++ tr s /\
+    map (fun z : nat * nat * P => snd (fst z)) (gf_subs s) = gf_pids s /\
+    retry s' = retry s /\ tbs s' = tbs s /\ idp s' = idp s ++ gf_new s /\
+    nid s' = nid s + length (gf_pts s) /\
+    log s' = (if c_log c then log s ++ [LAsk (gf_n s)] else log s) /\
+    lst s' = (if gf_asks s then snd (l_ask lrn (lst s) (gf_m s)) else lst s) /\ ph s' = ph s.
+  Proof.
+    intros HI s'.
+    set (s1 := if c_log c then set_log s (log s ++ [LAsk (gf_n s)]) else s).
+    assert (HI1 : Inv s1) by (unfold s1; destruct (c_log c); [apply Inv_set_log|]; exact HI).
+    assert (F1 : pend s1 = pend s /\ retry s1 = retry s /\ tbs s1 = tbs s /\ idp s1 = idp s /\ nid s1 = nid s /\
+                 nfid s1 = nfid s /\ lst s1 = lst s /\ ph s1 = ph s /\ tr s1 = tr s /\
+                 log s1 = (if c_log c then log s ++ [LAsk (gf_n s)] else log s))
+      by (unfold s1; destruct (c_log c); sp; repeat split).
+    destruct F1 as (Fp & Fr & Ft & Fi & Fn & Ff & Fl & Fph & Ftr & Flog).
+    assert (Hrc : retry_candidates s1 = retry_candidates s) by (unfold retry_candidates; rewrite Fp, Fr; reflexivity).
+    assert (Hs' : s' = let '(pids, s2) := ask lrn s1 (gf_n s) in fold_left (@submit_pid P V L) pids s2) by reflexivity.
+    rewrite ask_eq in Hs'. cbv zeta in Hs'. rewrite Hrc, Fl, Fn in Hs'. fold (gf_R s) in Hs'. fold (gf_m s) in Hs'.
+    fold (gf_asks s) in Hs'.
+    (* facts about the retried pids *)
+    assert (HR : forall p, In p (gf_R s) -> aget p (retry s) <> None /\ cnt p (pvals s) = 0 /\ aget p (idp s) <> None).
+    { intros p Hp. apply In_firstn in Hp. apply retry_candidates_spec in Hp. destruct Hp as [Hk Hc].
+      apply aget_In_keys in Hk. split; [exact Hk|]. split; [exact Hc|].
+      intros Hn. apply (i_dom HI) in Hn. tauto. }
+    assert (HRnd : NoDup (gf_R s)) by (apply NoDup_firstn, retry_candidates_nodup, HI).
+    unfold gf_subs, gf_pids, gf_new, gf_pts. destruct (gf_asks s) eqn:Ea.
+    - (* the learner is asked *)
+      set (pts := fst (l_ask lrn (lst s) (gf_m s))) in *. set (l' := snd (l_ask lrn (lst s) (gf_m s))) in *.
+      set (s2 := ask_ext s1 (gf_m s) pts l') in *.
+      assert (HI2 : Inv s2) by (apply Inv_ask_ext; exact HI1).
+      assert (F2 : pend s2 = pend s /\ retry s2 = retry s /\ tbs s2 = tbs s /\
+                   idp s2 = idp s ++ assign_ids (nid s) pts /\ nid s2 = nid s + length pts /\ nfid s2 = nfid s /\
+                   lst s2 = l' /\ ph s2 = ph s /\ tr s2 = TAsk (gf_m s) (assign_ids (nid s) pts) :: tr s /\ log s2 = log s1)
+        by (unfold s2, ask_ext; sp; rewrite Fp, Fr, Ft, Fi, Fn, Ff, Fph, Ftr; repeat split).
+      destruct F2 as (Gp & Gr & Gt & Gi & Gn & Gf & Gl & Gph & Gtr & Glog).
+      set (new := assign_ids (nid s) pts) in *. set (pids := gf_R s ++ map fst new) in *.
+      assert (Hall : forall p, In p pids -> aget p (idp s2) <> None /\ cnt p (pvals s2) = 0 /\
+                                 (aget p (tbs s2) <> None -> aget p (retry s2) <> None)).
+      { intros p Hp. unfold pvals. rewrite Gi, Gp, Gt, Gr. apply in_app_or in Hp. destruct Hp as [Hp|Hp].
+        - destruct (HR p Hp) as (A1 & A2 & A3). split; [|split; [exact A2|intros _; exact A1]].
+          rewrite aget_app. destruct (aget p (idp s)); congruence.
+        - fold (akeys new) in Hp. apply aget_In_keys in Hp.
+          assert (Hge : nid s <= p) by (apply assign_ids_range in Hp; lia).
+          assert (Hn : aget p (idp s) = None).
+          { destruct (aget p (idp s)) eqn:Ei; [|reflexivity].
+            assert (p < nid s) by (apply (i_idp_lt HI); congruence). lia. }
+          destruct (i_dom HI _ Hn) as (D1 & D2 & D3).
+          split; [rewrite aget_app, Hn; exact Hp|]. split; [exact D3|intros Hc; congruence]. }
+      assert (Hnd : NoDup pids).
+      { apply NoDup_app_disj; [exact HRnd| |].
+        - fold (akeys new). unfold new. rewrite assign_ids_keys. apply seq_NoDup.
+        - intros p Hp Hq. destruct (HR p Hp) as (_ & _ & A3). apply (i_idp_lt HI) in A3.
+          fold (akeys new) in Hq. apply aget_In_keys, assign_ids_range in Hq. lia. }
+      assert (Hs2 : s' = fold_left (@submit_pid P V L) pids s2) by exact Hs'.
+      pose proof (submit_fold_shape pids s2) as SH. cbv zeta in SH. rewrite <- Hs2, Gf, Gi in SH.
+      destruct SH as (S1 & S2 & S3 & S4 & S5 & S6 & S7 & S8 & S9 & S10).
+      destruct (subs_list_all (nfid s) pids (idp s ++ new)) as (T1 & T2 & T3).
+      { intros p Hp. destruct (Hall p Hp) as (A & _). rewrite Gi in A. exact A. }
+      split; [rewrite Hs2; apply Inv_submit_fold; assumption|].
+      rewrite S1, S2, S4, S5, S6, S7, S8, S9, S10, T3, Gp, Gtr, Gr, Gt, Gn, Glog, Gl, Gph, Flog.
+      repeat split; try reflexivity. exact T1.
+    - (* enough points to retry: the learner is not asked *)
+      cbn [assign_ids map]. rewrite !app_nil_r.
+      assert (Hall : forall p, In p (gf_R s) -> aget p (idp s1) <> None /\ cnt p (pvals s1) = 0 /\
+                                 (aget p (tbs s1) <> None -> aget p (retry s1) <> None)).
+      { intros p Hp. unfold pvals. rewrite Fi, Fp, Ft, Fr. destruct (HR p Hp) as (A1 & A2 & A3). auto. }
+      assert (Hs2 : s' = fold_left (@submit_pid P V L) (gf_R s) s1) by exact Hs'.
+      pose proof (submit_fold_shape (gf_R s) s1) as SH. cbv zeta in SH. rewrite <- Hs2, Ff, Fi in SH.
+      destruct SH as (S1 & S2 & S3 & S4 & S5 & S6 & S7 & S8 & S9 & S10).
+      destruct (subs_list_all (nfid s) (gf_R s) (idp s)) as (T1 & T2 & T3).
+      { intros p Hp. apply HR. exact Hp. }
+      split; [rewrite Hs2; apply Inv_submit_fold; assumption|].
+      rewrite S1, S2, S4, S5, S6, S7, S8, S9, S10, T3, Fp, Ftr, Fr, Ft, Fn, Flog, Fl, Fph.
+      cbn [length app]. rewrite Nat.add_0_r.
+      repeat split; try reflexivity. exact T1.
+  Qed.
+
+  (* ---- _remove_unfinished / stop ---------------------------------------- *)
+  Definition neutral e : Prop := e = TRemove \/ exists f, e = TCancel f.
+
+  Lemma Inv_emit_neutral s e : Inv s -> neutral e -> Inv (emit s e).
+  Proof.
+    intros HI Hne.
+    assert (Hsub : forall f q x, In (TSubmit f q x) (e :: tr s) -> In (TSubmit f q x) (tr s))
+      by (intros f q x [Heq|Hin]; [destruct Hne as [->|[f' ->]]; discriminate|exact Hin]).
+    assert (Hdone : forall f q o, In (TDone f q o) (e :: tr s) -> In (TDone f q o) (tr s))
+      by (intros f q o [Heq|Hin]; [destruct Hne as [->|[f' ->]]; discriminate|exact Hin]).
+    assert (Hcn : forall p, nsub p (e :: tr s) = nsub p (tr s) /\ nerr p (e :: tr s) = nerr p (tr s) /\
+                            nok p (e :: tr s) = nok p (tr s) /\ ntell p (e :: tr s) = ntell p (tr s))
+      by (intros p; destruct Hne as [->|[f' ->]]; repeat split).
+    constructor; sp.
+    - apply (i_fids HI).
+    - apply (i_pend_nd HI).
+    - apply (i_retry_nd HI).
+    - apply (i_idp_lt HI).
+    - intros p Hp. destruct (Hcn p) as (-> & -> & -> & ->). apply (i_fresh HI). exact Hp.
+    - intros p Hp Hn. destruct (Hcn p) as (-> & -> & -> & ->). apply (i_told HI); assumption.
+    - intros p x Hx. destruct (Hcn p) as (-> & -> & -> & ->). apply (i_live HI _ _ Hx).
+    - apply (i_dom HI).
+    - intros f q Hq. destruct (i_pend_sub HI _ _ Hq) as (x & Hx & Hin & Hnd). exists x.
+      split; [exact Hx|]. split; [right; exact Hin|].
+      intros (q' & o & Hd). apply Hnd. exists q', o. apply Hdone. exact Hd.
+    - intros f q x Hin. apply Hsub in Hin. destruct (i_sub_acc HI _ _ _ Hin) as (Hlt & Hor).
+      split; [exact Hlt|]. destruct Hor as [(o & Ho)|Hq]; [left; exists o; right; exact Ho|right; exact Hq].
+    - intros p x Hx. destruct (i_idp_asked HI _ _ Hx) as (n' & ret & Hin & Hr).
+      exists n', ret. split; [right; exact Hin|exact Hr].
+    - intros f q o Hin. apply Hdone in Hin. apply (i_done_lt HI _ _ _ Hin).
+    - cbn [all_suffix]. split; [|apply (i_tr HI)]. destruct Hne as [->|[f' ->]]; exact I.
+  Qed.
+
+  Lemma set_tr_fold (l : list tev) : forall s, set_tr s (rev l ++ tr s) = fold_left (@emit P V L) l s.
+  Proof.
+    induction l as [|a l IH]; intros s; cbn [rev app fold_left].
+    - destruct s; reflexivity.
+    - rewrite <- IH. rewrite <- app_assoc. reflexivity.
+  Qed.
+
+  Lemma Inv_fold_neutral (l : list tev) : forall s, Inv s -> (forall e, In e l -> neutral e) ->
+    Inv (fold_left (@emit P V L) l s).
+  Proof.
+    induction l as [|a l IH]; intros s HI H; cbn [fold_left]; [exact HI|].
+    apply IH; [apply Inv_emit_neutral; [exact HI|apply H; left; reflexivity]|intros e He; apply H; right; exact He].
+  Qed.
+
+  Definition cancels s : list tev := map (fun fp : nat * nat => TCancel (fst fp)) (pend s).
+
+  Lemma remove_unfinished_fields s :
+    let s' := remove_unfinished lrn s in
+    pend s' = pend s /\ retry s' = retry s /\ tbs s' = tbs s /\ idp s' = idp s /\ nid s' = nid s /\
+    nfid s' = nfid s /\ log s' = log s /\ lst s' = l_remove lrn (lst s) /\ ph s' = ph s /\
+    tr s' = rev (cancels s) ++ TRemove :: tr s.
+  Proof. unfold remove_unfinished. sp. repeat split. Qed.
+
+  Lemma Inv_remove_unfinished s : Inv s -> Inv (remove_unfinished lrn s).
+  Proof.
+    intros HI. unfold remove_unfinished.
+    set (s1 := emit (set_lst s (l_remove lrn (lst s))) TRemove).
+    change (map (fun fp : nat * nat => TCancel (fst fp)) (pend s)) with (cancels s).
+    rewrite set_tr_fold. apply Inv_fold_neutral.
+    - apply Inv_emit_neutral; [apply Inv_set_lst; exact HI|left; reflexivity].
+    - intros e He. unfold cancels in He. apply in_map_iff in He. destruct He as (fp & <- & _). right. eexists. reflexivity.
+  Qed.
+
+  Lemma Inv_stop s w : Inv s -> Inv (stop lrn s w).
+  Proof.
+    intros HI. unfold stop. pose proof (Inv_remove_unfinished s HI) as H.
+    destruct (pend (remove_unfinished lrn s)); apply Inv_set_ph; exact H.
+  Qed.
+
+  (* ---- every reachable state satisfies the invariant -------------------- *)
+  Lemma Inv_rstep s (a : ev) : Inv s -> Inv (rstep lrn c s a).
+  Proof.
+    intros HI. unfold rstep.
+    destruct (ph s) as [| |w|w cl]; destruct a as [[|]|done| |got]; try exact HI.
+    - apply Inv_stop; exact HI.
+    - apply Inv_set_ph. apply get_futures_spec. exact HI.
+    - destruct (process lrn c s done) as [s' [pid|]] eqn:Ep.
+      + apply Inv_stop. eapply Inv_process; eauto.
+      + apply Inv_set_ph. eapply Inv_process; eauto.
+    - apply Inv_stop; exact HI.
+    - destruct (c_kind c).
+      + destruct (process lrn c s got) as [s' [pid|]] eqn:Ep; apply Inv_set_ph; eapply Inv_process; eauto.
+      + apply Inv_set_ph; exact HI.
+  Qed.
+
+  Lemma run_cons s (a : ev) evs : run lrn c s (a :: evs) = run lrn c (rstep lrn c s a) evs.
+  Proof. reflexivity. Qed.
+
+  Lemma run_app s evs1 evs2 : run lrn c s (evs1 ++ evs2) = run lrn c (run lrn c s evs1) evs2.
+  Proof. apply fold_left_app. Qed.
+
+  Lemma Inv_run evs : forall s, Inv s -> Inv (run lrn c s evs).
+  Proof. induction evs as [|a evs IH]; intros s HI; [exact HI|]. rewrite run_cons. apply IH, Inv_rstep, HI. Qed.
+
+  Theorem Inv_reach l0 evs : Inv (reach lrn c l0 evs).
+  Proof. apply Inv_run, Inv_init. Qed.
+
+  (* ---- an induction principle for the for loop of _process_futures ------- *)
+  Inductive pstep : rst -> rst -> option nat -> Prop :=
+  | ps_skip s : pstep s s None
+  | ps_ok s fid pid x y : aget fid (pend s) = Some pid -> aget pid (idp s) = Some x ->
+      pstep s (ok_step s fid pid x y) None
+  | ps_err s fid pid : aget fid (pend s) = Some pid ->
+      pstep s (err_step s fid pid) (if (r <? err_n s pid) && c_raise c then Some pid else None).
+
+  Lemma process_one_pstep s fid o s' res : Inv s -> process_one lrn c s fid o = (s', res) -> pstep s s' res.
+  Proof.
+    intros HI H. destruct (aget fid (pend s)) as [pid|] eqn:Ep.
+    - destruct o as [y|].
+      + destruct (i_pend_sub HI _ _ Ep) as (x & Hx & _).
+        rewrite (process_one_ok _ _ _ _ y Ep Hx) in H. inversion H; subst. apply ps_ok; assumption.
+      + rewrite (process_one_err _ _ _ Ep) in H. inversion H; subst. apply ps_err; assumption.
+    - unfold process_one in H. rewrite Ep in H. inversion H; subst. apply ps_skip.
+  Qed.
+
+  Lemma Inv_pstep s s' res : Inv s -> pstep s s' res -> Inv s'.
+  Proof. intros HI H. destruct H; [exact HI|apply Inv_ok_step; assumption|apply Inv_err_step; assumption]. Qed.
+
+  Lemma process_inv (Q : rst -> Prop) :
+    (forall s s', Inv s -> Q s -> pstep s s' None -> Q s') ->
+    forall done s s' res, Inv s -> Q s -> process lrn c s done = (s', res) ->
+      (res = None -> Q s') /\
+      (forall pid, res = Some pid ->
+                 exists s0 fid, Inv s0 /\ Q s0 /\ aget fid (pend s0) = Some pid /\
+                                s' = err_step s0 fid pid /\ r < err_n s0 pid /\ c_raise c = true).
+  Proof.
+    intros Hstep. induction done as [|[fid o] done IH]; cbn [process]; intros s s' res HI HQ H.
+    - inversion H; subst. split; [intros _; exact HQ|discriminate].
+    - destruct (process_one lrn c s fid o) as [s1 res1] eqn:E1.
+      pose proof (process_one_pstep _ _ _ _ _ HI E1) as Hp.
+      destruct res1 as [pid|].
+      + inversion H; subst. split; [discriminate|].
+        intros pid' [= <-]. inversion Hp; subst.
+        exists s, fid0. destruct (Nat.ltb_spec r (err_n s pid0)); cbn [andb] in *; [|discriminate].
+        destruct (c_raise c) eqn:Er; [|discriminate].
+        match goal with H : Some _ = Some _ |- _ => inversion H; subst end. auto 10.
+      + eapply IH; [eapply Inv_pstep; eauto|eapply Hstep; eauto|exact H].
+  Qed.
+
+  (* ---- phases and the shape of the trace at shutdown --------------------- *)
+  Definition is_cdt e : Prop :=
+    (exists f, e = TCancel f) \/ (exists f q o, e = TDone f q o) \/ (exists q x y, e = TTell q x y).
+  Definition not_stop e : Prop := e <> TRemove /\ forall f, e <> TCancel f.
+
+  (* tr = t1 ++ TRemove :: t2 : remove_unfinished was called exactly once, before
+     it nothing was cancelled, after it nothing was asked or submitted, and
+     cancel() was called on every future that is still pending *)
+  Definition stop_shape s : Prop :=
+    exists t1 t2, tr s = t1 ++ TRemove :: t2 /\ (forall e, In e t1 -> is_cdt e) /\
+                  (forall e, In e t2 -> not_stop e) /\
+                  (forall f, In f (akeys (pend s)) -> In (TCancel f) t1) /\
+                  (c_kind c = Async -> forall e, In e t1 -> exists f, e = TCancel f).
+
+  Definition PhInv s : Prop :=
+    match ph s with
+    | AtGoal | InWait => forall e, In e (tr s) -> not_stop e
+    | Stopping w => w <> NoWorkers /\ stop_shape s /\ pend s <> []
+    | Stopped NoWorkers _ => tr s = [] /\ M < 1
+    | Stopped _ _ => stop_shape s
+    end.
+
+  (* effect of the loop on the trace: only TDone/TTell are added, no future becomes pending *)
+  Definition Pr s0 s : Prop :=
+    exists tn, tr s = tn ++ tr s0 /\
+               (forall e, In e tn -> (exists f q o, e = TDone f q o) \/ (exists q x y, e = TTell q x y)) /\
+               (forall f, In f (akeys (pend s)) -> In f (akeys (pend s0))) /\ ph s = ph s0.
+
+  Lemma Pr_refl s : Pr s s.
+  Proof. exists []. repeat split; auto. intros e []. Qed.
+
+  Lemma Pr_pstep s0 s s' res : Inv s -> Pr s0 s -> pstep s s' res -> Pr s0 s'.
+  Proof.
+    intros _ (tn & Ht & Hn & Hk & Hph) H. destruct H as [s|s fid pid x y H1 H2|s fid pid H1].
+    - exists tn. auto.
+    - destruct (ok_fields s fid pid x y) as (Fp & Ft & _ & _ & _ & _ & _ & _ & Fph & _).
+      exists (TTell pid x y :: TDone fid pid (Ok y) :: tn). rewrite Ft, Fp, Fph, Ht. repeat split; auto.
+      + intros e [<-|[<-|He]]; [right; eauto|left; eauto|auto].
+      + intros f Hf. apply akeys_apop_In in Hf. apply Hk. tauto.
+    - destruct (err_fields s fid pid) as (Fp & Ft & _ & _ & _ & _ & _ & _ & Fph & _).
+      exists (TDone fid pid Err :: tn). rewrite Ft, Fp, Fph, Ht. repeat split; auto.
+      + intros e [<-|He]; [left; eauto|auto].
+      + intros f Hf. apply akeys_apop_In in Hf. apply Hk. tauto.
+  Qed.
+
+  Lemma process_Pr done s s' res : Inv s -> process lrn c s done = (s', res) -> Pr s s'.
+  Proof.
+    intros HI H. destruct (process_inv (Pr s)) with (done := done) (s := s) (s' := s') (res := res) as [A B];
+      [intros; eapply Pr_pstep; eauto|exact HI|apply Pr_refl|exact H|].
+    destruct res as [pid|]; [|apply A; reflexivity].
+    destruct (B pid eq_refl) as (s0 & fid & HI0 & HP0 & Hf & -> & _ & _).
+    eapply Pr_pstep; [exact HI0|exact HP0|]. apply (ps_err s0 fid pid Hf).
+  Qed.
+
+  Lemma stop_fields s w :
+    let s' := stop lrn s w in
+    pend s' = pend s /\ retry s' = retry s /\ tbs s' = tbs s /\ idp s' = idp s /\ nid s' = nid s /\
+    nfid s' = nfid s /\ log s' = log s /\ lst s' = l_remove lrn (lst s) /\
+    tr s' = rev (cancels s) ++ TRemove :: tr s /\
+    ph s' = (match pend s with [] => Stopped w true | _ :: _ => Stopping w end).
+  Proof.
+    unfold stop. destruct (remove_unfinished_fields s) as (A1 & A2 & A3 & A4 & A5 & A6 & A7 & A8 & A9 & A10).
+    rewrite A1. destruct (pend s); sp; repeat split; assumption.
+  Qed.
+
+  Lemma stop_shape_stop s w : (forall e, In e (tr s) -> not_stop e) -> stop_shape (stop lrn s w).
+  Proof.
+    intros Hns. destruct (stop_fields s w) as (Fp & _ & _ & _ & _ & _ & _ & _ & Ft & _).
+    exists (rev (cancels s)), (tr s). rewrite Ft, Fp. split; [reflexivity|].
+    assert (Hc : forall e, In e (rev (cancels s)) -> exists f, e = TCancel f).
+    { intros e He. apply in_rev in He. unfold cancels in He. apply in_map_iff in He.
+      destruct He as (fp & <- & _). eexists; reflexivity. }
+    split; [intros e He; left; apply Hc; exact He|]. split; [exact Hns|]. split; [|intros _; exact Hc].
+    intros f Hf. apply in_rev. rewrite rev_involutive. unfold cancels, akeys in *.
+    apply in_map_iff in Hf. destruct Hf as (fp & <- & Hin). apply in_map_iff. exists fp. auto.
+  Qed.
+
+  Lemma PhInv_stop s w : w <> NoWorkers -> (forall e, In e (tr s) -> not_stop e) -> PhInv (stop lrn s w).
+  Proof.
+    intros Hw Hns. pose proof (stop_shape_stop s w Hns) as Hsh. unfold PhInv.
+    destruct (stop_fields s w) as (Fp & _ & _ & _ & _ & _ & _ & _ & _ & Fph). rewrite Fph.
+    destruct (pend s) eqn:Ep.
+    - destruct w; try exact Hsh. congruence.
+    - split; [exact Hw|]. split; [exact Hsh|]. rewrite Fp. discriminate.
+  Qed.
+
+  Lemma not_stop_Pr s s' : Pr s s' -> (forall e, In e (tr s) -> not_stop e) -> forall e, In e (tr s') -> not_stop e.
+  Proof.
+    intros (tn & Ht & Hn & _ & _) H e He. rewrite Ht in He. apply in_app_or in He. destruct He as [He|He]; [|auto].
+    destruct (Hn e He) as [(f & q & o & ->)|(q & x & y & ->)]; split; try discriminate; intros; discriminate.
+  Qed.
+
+  Lemma PhInv_rstep s (a : ev) : Inv s -> PhInv s -> PhInv (rstep lrn c s a).
+  Proof.
+    intros HI HP. unfold rstep. unfold PhInv in HP.
+    destruct (ph s) as [| |w|w cl] eqn:Eph; destruct a as [[|]|done| |got];
+      try (unfold PhInv; rewrite Eph; exact HP).
+    - apply PhInv_stop; [discriminate|exact HP].
+    - destruct (get_futures_spec s HI) as (_ & _ & Ft & _). unfold PhInv. sp.
+      intros e He. rewrite Ft in He. apply in_app_or in He. destruct He as [He|He].
+      + apply in_rev in He. apply in_map_iff in He. destruct He as (z & <- & _).
+        split; [discriminate|intros; discriminate].
+      + apply in_app_or in He. destruct He as [He|He]; [|auto].
+        destruct (gf_asks s); [|destruct He]. destruct He as [<-|[]]. split; [discriminate|intros; discriminate].
+    - destruct (process lrn c s done) as [s' [pid|]] eqn:Ep.
+      + apply PhInv_stop; [discriminate|]. eapply not_stop_Pr; [eapply process_Pr; eauto|exact HP].
+      + unfold PhInv. sp. eapply not_stop_Pr; [eapply process_Pr; eauto|exact HP].
+    - apply PhInv_stop; [discriminate|exact HP].
+    - destruct HP as (Hw & (t1 & t2 & Ht & H1 & H2 & H3 & H4) & Hne).
+      destruct (c_kind c) eqn:Ek.
+      + assert (Hsh : forall s' res, process lrn c s got = (s', res) -> stop_shape s').
+        { intros s' res Ep. destruct (process_Pr _ _ _ _ HI Ep) as (tn & Ht' & Hn & Hk & _).
+          exists (tn ++ t1), t2. rewrite Ht', Ht, app_assoc. split; [reflexivity|].
+          split; [intros e He; apply in_app_or in He; destruct He as [He|He]; [right; exact (Hn e He)|auto]|].
+          split; [exact H2|]. split; [intros f Hf; apply in_or_app; right; apply H3, Hk, Hf|].
+          intros Ha. congruence. }
+        destruct (process lrn c s got) as [s' [pid|]] eqn:Ep; unfold PhInv; sp.
+        * exact (Hsh _ _ eq_refl).
+        * destruct w; try exact (Hsh _ _ eq_refl). congruence.
+      + unfold PhInv. sp. assert (Hsh : stop_shape s).
+        { exists t1, t2. split; [exact Ht|]. split; [exact H1|]. split; [exact H2|]. split; [exact H3|].
+          intros _. apply H4. reflexivity. }
+        destruct w; try exact Hsh. congruence.
+  Qed.
+
+  Lemma PhInv_init l0 : PhInv (init P V c l0).
+  Proof.
+    unfold PhInv, init. sp. destruct (Nat.ltb_spec M 1); sp; [auto|]. intros e [].
+  Qed.
+
+  Lemma PhInv_run evs : forall s, Inv s -> PhInv s -> PhInv (run lrn c s evs).
+  Proof.
+    induction evs as [|a evs IH]; intros s HI HP; [exact HP|]. rewrite run_cons.
+    apply IH; [apply Inv_rstep, HI|apply PhInv_rstep; assumption].
+  Qed.
+
+  Theorem PhInv_reach l0 evs : PhInv (reach lrn c l0 evs).
+  Proof. apply PhInv_run; [apply Inv_init|apply PhInv_init]. Qed.
+
+  (* ---- raise_if_retries_exceeded ----------------------------------------- *)
+  Definition RaiseInv s : Prop :=
+    match ph s with
+    | Stopping (Failed p) | Stopped (Failed p) _ => c_raise c = true /\ r < nerr p (tr s)
+    | _ => c_raise c = true -> forall p, nerr p (tr s) <= r
+    end.
+  Definition Qr s : Prop := c_raise c = true -> forall p, nerr p (tr s) <= r.
+
+  Lemma nerr_err_step s fid pid p : nerr p (tr (err_step s fid pid)) = (if p =? pid then 1 else 0) + nerr p (tr s).
+  Proof. destruct (err_fields s fid pid) as (_ & Ft & _). rewrite Ft. reflexivity. Qed.
+
+  Lemma err_n_nerr s fid pid : Inv s -> aget fid (pend s) = Some pid -> err_n s pid = nerr pid (tr s) + 1.
+  Proof.
+    intros HI H. destruct (live_pending s fid pid HI H) as (x0 & _ & _ & _ & _ & Hne & _). unfold err_n. lia.
+  Qed.
+
+  Lemma Qr_pstep s s' : Inv s -> Qr s -> pstep s s' None -> Qr s'.
+  Proof.
+    intros HI HQ H Hr p. specialize (HQ Hr). remember (@None nat) as res eqn:Hres.
+    destruct H as [s|s fid pid x y H1 H2|s fid pid H1].
+    - apply HQ.
+    - destruct (ok_fields s fid pid x y) as (_ & Ft & _). rewrite Ft. apply HQ.
+    - rewrite nerr_err_step. rewrite Hr, andb_true_r in Hres.
+      destruct (Nat.ltb_spec r (err_n s pid)); [discriminate|].
+      pose proof (err_n_nerr s fid pid HI H1). specialize (HQ p). deq p pid; [subst; lia|lia].
+  Qed.
+
+  Lemma process_raise done s s' res : Inv s -> Qr s -> process lrn c s done = (s', res) ->
+    match res with None => Qr s' | Some pid => c_raise c = true /\ r < nerr pid (tr s') end.
+  Proof.
+    intros HI HQ H. destruct (process_inv Qr Qr_pstep done s s' res HI HQ H) as [A B].
+    destruct res as [pid|]; [|apply A; reflexivity].
+    destruct (B pid eq_refl) as (s0 & fid & HI0 & _ & Hf & -> & Hlt & Hr). split; [exact Hr|].
+    rewrite nerr_err_step, Nat.eqb_refl. pose proof (err_n_nerr s0 fid pid HI0 Hf). lia.
+  Qed.
+
+  Lemma nerr_mono s s' p : Pr s s' -> nerr p (tr s) <= nerr p (tr s').
+  Proof. intros (tn & Ht & _). rewrite Ht. unfold nerr. rewrite count_true_app. lia. Qed.
+
+  Lemma nerr_stop s w p : nerr p (tr (stop lrn s w)) = nerr p (tr s).
+  Proof.
+    destruct (stop_fields s w) as (_ & _ & _ & _ & _ & _ & _ & _ & Ft & _). rewrite Ft.
+    unfold nerr. rewrite count_true_app. cbn [count_true is_err].
+    assert (H0 : count_true (is_err p) (rev (cancels s)) = 0).
+    { apply count_true_0. intros a Ha. apply in_rev in Ha. unfold cancels in Ha. apply in_map_iff in Ha.
+      destruct Ha as (fp & <- & _). reflexivity. }
+    rewrite H0. reflexivity.
+  Qed.
+
+  Lemma RaiseInv_stop_ok s w : (forall p, w <> Failed p) -> Qr s -> RaiseInv (stop lrn s w).
+  Proof.
+    intros Hw HQ. unfold RaiseInv. destruct (stop_fields s w) as (_ & _ & _ & _ & _ & _ & _ & _ & _ & Fph).
+    rewrite Fph. destruct (pend s); destruct w; try (exfalso; eapply Hw; reflexivity);
+      intros Hr q; rewrite nerr_stop; apply HQ; exact Hr.
+  Qed.
+
+  Lemma RaiseInv_stop_failed s pid : c_raise c = true -> r < nerr pid (tr s) -> RaiseInv (stop lrn s (Failed pid)).
+  Proof.
+    intros Hr Hlt. unfold RaiseInv. destruct (stop_fields s (Failed pid)) as (_ & _ & _ & _ & _ & _ & _ & _ & _ & Fph).
+    rewrite Fph. destruct (pend s); rewrite nerr_stop; auto.
+  Qed.
+
+  Lemma RaiseInv_rstep s (a : ev) : Inv s -> RaiseInv s -> RaiseInv (rstep lrn c s a).
+  Proof.
+    intros HI HR. unfold rstep. unfold RaiseInv in HR.
+    destruct (ph s) as [| |w|w cl] eqn:Eph; destruct a as [[|]|done| |got];
+      try (unfold RaiseInv; rewrite Eph; exact HR).
+    - apply RaiseInv_stop_ok; [discriminate|exact HR].
+    - destruct (get_futures_spec s HI) as (_ & _ & Ft & _). unfold RaiseInv. sp. intros Hr p. rewrite Ft.
+      unfold nerr. rewrite !count_true_app.
+      assert (H0 : count_true (is_err p) (rev (map sub_ev (gf_subs s))) = 0).
+      { apply count_true_0. intros a Ha. apply in_rev in Ha. apply in_map_iff in Ha. destruct Ha as (z & <- & _). reflexivity. }
+      assert (H1 : count_true (is_err p) (if gf_asks s then [TAsk (gf_m s) (gf_new s)] else []) = 0)
+        by (destruct (gf_asks s); reflexivity).
+      rewrite H0, H1. apply HR. exact Hr.
+    - pose proof (process_raise done s) as Hpr.
+      destruct (process lrn c s done) as [s' [pid|]] eqn:Ep; specialize (Hpr _ _ HI HR eq_refl).
+      + destruct Hpr. apply RaiseInv_stop_failed; assumption.
+      + unfold RaiseInv. sp. exact Hpr.
+    - apply RaiseInv_stop_ok; [discriminate|exact HR].
+    - destruct (c_kind c).
+      + pose proof (process_raise got s) as Hpr. pose proof (process_Pr got s) as HPr.
+        destruct w as [| |p0|].
+        * destruct (process lrn c s got) as [s' [pid|]] eqn:Ep; specialize (Hpr _ _ HI HR eq_refl);
+            unfold RaiseInv; sp; exact Hpr.
+        * destruct (process lrn c s got) as [s' [pid|]] eqn:Ep; specialize (Hpr _ _ HI HR eq_refl);
+            unfold RaiseInv; sp; exact Hpr.
+        * destruct HR as [Hr Hlt].
+          destruct (process lrn c s got) as [s' [pid|]] eqn:Ep; specialize (HPr _ _ HI eq_refl); unfold RaiseInv; sp.
+          -- assert (HQ' : Qr s \/ True) by (right; exact I).
+             split; [exact Hr|].
+             (* the raising step: its pid exceeds the limit *)
+             destruct (process_inv (fun _ => True)) with (done := got) (s := s) (s' := s') (res := Some pid) as [_ B];
+               [auto|exact HI|exact I|exact Ep|].
+             destruct (B pid eq_refl) as (s0 & fid & HI0 & _ & Hf & -> & Hlt0 & _).
+             rewrite nerr_err_step, Nat.eqb_refl. pose proof (err_n_nerr s0 fid pid HI0 Hf). lia.
+          -- split; [exact Hr|]. pose proof (nerr_mono s s' p0 HPr). lia.
+        * destruct (process lrn c s got) as [s' [pid|]] eqn:Ep; specialize (Hpr _ _ HI HR eq_refl);
+            unfold RaiseInv; sp; exact Hpr.
+      + unfold RaiseInv. sp. exact HR.
+  Qed.
+
+  Lemma RaiseInv_init l0 : RaiseInv (init P V c l0).
+  Proof. unfold RaiseInv, init. sp. destruct (M <? 1); intros _ p; cbn; lia. Qed.
+
+  Lemma RaiseInv_run evs : forall s, Inv s -> RaiseInv s -> RaiseInv (run lrn c s evs).
+  Proof.
+    induction evs as [|a evs IH]; intros s HI HP; [exact HP|]. rewrite run_cons.
+    apply IH; [apply Inv_rstep, HI|apply RaiseInv_rstep; assumption].
+  Qed.
+
+  Theorem RaiseInv_reach l0 evs : RaiseInv (reach lrn c l0 evs).
+  Proof. apply RaiseInv_run; [apply Inv_init|apply RaiseInv_init]. Qed.
+
+  (* ---- the log and the learner (C19) -------------------------------------- *)
+  Definition apply_tev (l : L) e : L :=
+    match e with
+    | TAsk n _ => snd (l_ask lrn l n)
+    | TTell _ x y => l_tell lrn l x y
+    | TRemove => l_remove lrn l
+    | _ => l
+    end.
+  (* the calls of the trace (newest first) applied in chronological order *)
+  Definition apply_trace (l0 : L) t : L := fold_right (fun e l => apply_tev l e) l0 t.
+  Definition noerr t : Prop := forall f q, ~ In (TDone f q Err) t.
+  Definition proj e : list (logent P V) :=
+    match e with TAsk n _ => [LAsk n] | TTell _ x y => [LTell x y] | _ => [] end.
+  (* the ask/tell calls of the trace, in chronological order, as log entries *)
+  Fixpoint logv t : list (logent P V) := match t with [] => [] | e :: old => logv old ++ proj e end.
+  Definition nz (e : logent P V) : bool := match e with LAsk 0 => false | _ => true end.
+  (* the log without its ("ask", 0) entries, which correspond to no call *)
+  Definition log_nz (lg : list (logent P V)) := filter nz lg.
+
+  Lemma apply_trace_app l0 t1 t2 : apply_trace l0 (t1 ++ t2) = apply_trace (apply_trace l0 t2) t1.
+  Proof. apply fold_right_app. Qed.
+
+  Lemma logv_app t1 t2 : logv (t1 ++ t2) = logv t2 ++ logv t1.
+  Proof.
+    induction t1 as [|e t1 IH]; cbn [app logv]; [rewrite app_nil_r; reflexivity|].
+    rewrite IH, app_assoc. reflexivity.
+  Qed.
+
+  Definition silent e : Prop := (forall l, apply_tev l e = l) /\ proj e = [].
+
+  Lemma silent_trace l t : (forall e, In e t -> silent e) -> apply_trace l t = l /\ logv t = [].
+  Proof.
+    induction t as [|e t IH]; intros H; cbn [apply_trace fold_right logv]; [auto|].
+    destruct IH as [A B]; [intros a Ha; apply H; right; exact Ha|].
+    destruct (H e (or_introl eq_refl)) as [C D]. fold (apply_trace l t). rewrite A, B, C, D. auto.
+  Qed.
+
+  Lemma log_nz_app a b : log_nz (a ++ b) = log_nz a ++ log_nz b.
+  Proof. apply filter_app. Qed.
+
+  Lemma noerr_app t1 t2 : noerr (t1 ++ t2) -> noerr t2.
+  Proof. intros H f q Hin. apply (H f q). apply in_or_app. right. exact Hin. Qed.
+
+  Record LogInv (l0 : L) s : Prop := {
+    lg_lst : lst s = apply_trace l0 (tr s);
+    lg_off : c_log c = false -> log s = [];
+    lg_on : c_log c = true -> noerr (tr s) -> retry s = [] /\ log_nz (log s) = logv (tr s)
+  }.
+
+  Lemma LogInv_set_ph l0 s v : LogInv l0 s -> LogInv l0 (set_ph s v).
+  Proof. intros [A B C]. constructor; assumption. Qed.
+
+  Lemma LogInv_pstep l0 s s' : Inv s -> LogInv l0 s -> pstep s s' None -> LogInv l0 s'.
+  Proof.
+    intros HI [A B C] H. remember (@None nat) as res eqn:Hres.
+    destruct H as [s|s fid pid x y H1 H2|s fid pid H1].
+    - constructor; assumption.
+    - destruct (ok_fields s fid pid x y) as (_ & Ft & _ & _ & _ & _ & Flog & Flst & _ & Fr).
+      constructor.
+      + rewrite Flst, Ft, A. reflexivity.
+      + intros Hl. rewrite Flog, Hl. apply B. exact Hl.
+      + intros Hl Hne. rewrite Ft in Hne. rewrite Flog, Hl, Fr, Ft.
+        destruct (C Hl) as [C1 C2]; [apply (noerr_app [TTell pid x y; TDone fid pid (Ok y)]); exact Hne|].
+        rewrite C1. split; [reflexivity|]. rewrite log_nz_app, C2. cbn [logv proj log_nz filter nz].
+        rewrite app_nil_r. reflexivity.
+    - destruct (err_fields s fid pid) as (_ & Ft & _ & _ & _ & _ & Flog & Flst & _ & _).
+      constructor.
+      + rewrite Flst, Ft, A. reflexivity.
+      + rewrite Flog. exact B.
+      + intros _ Hne. exfalso. apply (Hne fid pid). rewrite Ft. left. reflexivity.
+  Qed.
+
+  Lemma LogInv_process l0 done s s' res : Inv s -> LogInv l0 s -> process lrn c s done = (s', res) -> LogInv l0 s'.
+  Proof.
+    intros HI HL H.
+    destruct (process_inv (LogInv l0)) with (done := done) (s := s) (s' := s') (res := res) as [A B];
+      [intros; eapply LogInv_pstep; eauto|exact HI|exact HL|exact H|].
+    destruct res as [pid|]; [|apply A; reflexivity].
+    destruct (B pid eq_refl) as (s0 & fid & HI0 & [A0 B0 C0] & Hf & -> & _ & _).
+    destruct (err_fields s0 fid pid) as (_ & Ft & _ & _ & _ & _ & Flog & Flst & _ & _).
+    constructor.
+    - rewrite Flst, Ft, A0. reflexivity.
+    - rewrite Flog. exact B0.
+    - intros _ Hne. exfalso. apply (Hne fid pid). rewrite Ft. left. reflexivity.
+  Qed.
+
+  Lemma cancels_silent s e : In e (rev (cancels s)) -> silent e.
+  Proof.
+    intros He. apply in_rev in He. unfold cancels in He. apply in_map_iff in He. destruct He as (fp & <- & _).
+    split; [intros; reflexivity|reflexivity].
+  Qed.
+
+  Lemma LogInv_stop l0 s w : LogInv l0 s -> LogInv l0 (stop lrn s w).
+  Proof.
+    intros [A B C]. destruct (stop_fields s w) as (_ & Fr & _ & _ & _ & _ & Flog & Flst & Ft & _).
+    destruct (silent_trace (apply_trace l0 (TRemove :: tr s)) (rev (cancels s)) (cancels_silent s)) as [S1 S2].
+    constructor.
+    - rewrite Flst, Ft, apply_trace_app, S1, A. reflexivity.
+    - rewrite Flog. exact B.
+    - intros Hl Hne. rewrite Ft in Hne. rewrite Fr, Flog, Ft, logv_app, S2, app_nil_r. cbn [logv proj].
+      rewrite app_nil_r. apply C; [exact Hl|]. apply (noerr_app (rev (cancels s) ++ [TRemove])).
+      rewrite <- app_assoc. exact Hne.
+  Qed.
+
+  Lemma subs_silent s e : In e (rev (map sub_ev (gf_subs s))) -> silent e.
+  Proof.
+    intros He. apply in_rev in He. apply in_map_iff in He. destruct He as (z & <- & _).
+    split; [intros; reflexivity|reflexivity].
+  Qed.
+
+  Lemma LogInv_get_futures l0 s : Inv s -> LogInv l0 s -> LogInv l0 (get_futures lrn c s).
+  Proof.
+    intros HI [A B C].
+    destruct (get_futures_spec s HI) as (_ & _ & Ft & _ & Fr & _ & _ & _ & Flog & Flst & _).
+    set (X := (if gf_asks s then [TAsk (gf_m s) (gf_new s)] else []) ++ tr s) in *.
+    destruct (silent_trace (apply_trace l0 X) (rev (map sub_ev (gf_subs s))) (subs_silent s)) as [S1 S2].
+    constructor.
+    - rewrite Flst, Ft, apply_trace_app, S1. unfold X. destruct (gf_asks s); cbn [app apply_trace fold_right apply_tev].
+      + fold (apply_trace l0 (tr s)). rewrite <- A. reflexivity.
+      + exact A.
+    - intros Hl. rewrite Flog, Hl. apply B. exact Hl.
+    - intros Hl Hne. rewrite Ft in Hne. apply noerr_app in Hne. fold X in Hne.
+      assert (Hne' : noerr (tr s)) by (unfold X in Hne; apply noerr_app in Hne; exact Hne).
+      destruct (C Hl Hne') as [C1 C2]. rewrite Fr, Flog, Hl, Ft, logv_app, S2, app_nil_r.
+      split; [exact C1|]. rewrite log_nz_app, C2. unfold X. rewrite logv_app.
+      (* no retries are pending: the learner is asked for all free slots, if any *)
+      assert (HR : gf_R s = []).
+      { unfold gf_R, retry_candidates. rewrite C1. cbn [akeys map filter]. apply firstn_nil. }
+      unfold gf_asks, gf_m. rewrite HR. cbn [length]. rewrite Nat.sub_0_r.
+      destruct (gf_n s) as [|n]; cbn [Nat.ltb Nat.leb logv proj log_nz filter nz app]; rewrite ?app_nil_r; reflexivity.
+  Qed.
+
+  Lemma LogInv_rstep l0 s (a : ev) : Inv s -> LogInv l0 s -> LogInv l0 (rstep lrn c s a).
+  Proof.
+    intros HI HL. unfold rstep.
+    destruct (ph s) as [| |w|w cl] eqn:Eph; destruct a as [[|]|done| |got]; try exact HL.
+    - apply LogInv_stop; exact HL.
+    - apply LogInv_set_ph, LogInv_get_futures; assumption.
+    - destruct (process lrn c s done) as [s' [pid|]] eqn:Ep.
+      + apply LogInv_stop. eapply LogInv_process; eauto.
+      + apply LogInv_set_ph. eapply LogInv_process; eauto.
+    - apply LogInv_stop; exact HL.
+    - destruct (c_kind c).
+      + destruct (process lrn c s got) as [s' [pid|]] eqn:Ep; apply LogInv_set_ph; eapply LogInv_process; eauto.
+      + apply LogInv_set_ph; exact HL.
+  Qed.
+
+  Lemma LogInv_init l0 : LogInv l0 (init P V c l0).
+  Proof. unfold init. constructor; sp; auto. Qed.
+
+  Lemma LogInv_run l0 evs : forall s, Inv s -> LogInv l0 s -> LogInv l0 (run lrn c s evs).
+  Proof.
+    induction evs as [|a evs IH]; intros s HI HP; [exact HP|]. rewrite run_cons.
+    apply IH; [apply Inv_rstep, HI|apply LogInv_rstep; assumption].
+  Qed.
+
+  Theorem LogInv_reach l0 evs : LogInv l0 (reach lrn c l0 evs).
+  Proof. apply LogInv_run; [apply Inv_init|apply LogInv_init]. Qed.
+
+  (* ====================================================================== *)
+  (* The property-level statements                                           *)
+  (* ====================================================================== *)
+  Notation reach := (reach lrn c).
+
+  (* ---- C05 -------------------------------------------------------------- *)
+  Lemma ntell_0_notin p t : ntell p t = 0 -> forall x y, ~ In (TTell p x y) t.
+  Proof.
+    intros H x y Hin. unfold ntell in H.
+    pose proof (count_true_pos (is_tell p) t (TTell p x y) Hin) as Hpos. cbn [is_tell] in Hpos.
+    rewrite Nat.eqb_refl in Hpos. specialize (Hpos eq_refl). lia.
+  Qed.
+
+  Lemma ntell_pos_in p t x y t' : ntell p (t' ++ TTell p x y :: t) = 0 -> False.
+  Proof.
+    intros H. eapply ntell_0_notin; [exact H|]. apply in_or_app. right. left. reflexivity.
+  Qed.
+
+  Lemma only_handed_out_once l0 evs later pid x y earlier :
+    tr (reach l0 evs) = later ++ TTell pid x y :: earlier ->
+    (exists n ret, In (TAsk n ret) earlier /\ In (pid, x) ret) /\
+    (exists fid, In (TSubmit fid pid x) earlier /\ In (TDone fid pid (Ok y)) earlier) /\
+    (forall x' y', ~ In (TTell pid x' y') earlier) /\
+    (forall x' y', ~ In (TTell pid x' y') later).
+  Proof.
+    intros Ht. pose proof (i_tr (Inv_reach l0 evs)) as Hs. rewrite all_suffix_split in Hs.
+    destruct (Hs _ _ _ Ht) as (fid & older & -> & Hsub & (n & ret & Hask & Hret) & Hnt). cbn [Pe] in *.
+    split; [exists n, ret; split; [right; exact Hask|exact Hret]|].
+    split; [exists fid; split; [right; exact Hsub|left; reflexivity]|].
+    split.
+    - intros x' y' [Heq|Hin]; [discriminate|]. eapply ntell_0_notin; eauto.
+    - intros x' y' Hin. apply in_split in Hin. destruct Hin as (l1 & l2 & ->).
+      rewrite <- app_assoc in Ht. cbn [app] in Ht.
+      destruct (Hs _ _ _ Ht) as (fid' & older' & Heq & _ & _ & Hnt').
+      destruct l2 as [|a l2]; cbn [app] in Heq; [discriminate|]. inversion Heq; subst.
+      eapply ntell_pos_in. exact Hnt'.
+  Qed.
+
+  Definition LenInv s : Prop := length (pend s) <= M.
+
+  Lemma LenInv_rstep s (a : ev) : (forall l n, length (fst (l_ask lrn l n)) <= n) ->
+    Inv s -> LenInv s -> LenInv (rstep lrn c s a).
+  Proof.
+    intros Hask HI HL. unfold LenInv in *.
+    assert (Hproc : forall done s' res, process lrn c s done = (s', res) -> length (pend s') <= length (pend s)).
+    { intros done s' res Ep.
+      assert (Hst : forall s1 s2 res', pstep s1 s2 res' -> length (pend s2) <= length (pend s1)).
+      { intros s1 s2 res' H. destruct H as [s1|s1 fid pid x y H1 H2|s1 fid pid H1].
+        - lia.
+        - destruct (ok_fields s1 fid pid x y) as (Fp & _). rewrite Fp. apply apop_length.
+        - destruct (err_fields s1 fid pid) as (Fp & _). rewrite Fp. apply apop_length. }
+      destruct (process_inv (fun s1 => length (pend s1) <= length (pend s))) with (done := done) (s := s) (s' := s') (res := res)
+        as [A B]; [intros s1 s2 _ H1 H2; pose proof (Hst _ _ _ H2); lia|exact HI|lia|exact Ep|].
+      destruct res as [pid|]; [|apply A; reflexivity].
+      destruct (B pid eq_refl) as (s0 & fid & _ & H0 & Hf & -> & _).
+      pose proof (Hst _ _ _ (ps_err s0 fid pid Hf)). lia. }
+    assert (Hstop : forall s0 w, pend (stop lrn s0 w) = pend s0) by (intros; apply stop_fields).
+    unfold rstep. destruct (ph s) as [| |w|w cl]; destruct a as [[|]|done| |got]; try exact HL.
+    - rewrite Hstop. exact HL.
+    - sp. destruct (get_futures_spec s HI) as (_ & Fp & _). rewrite Fp, app_length, combine_length, seq_length, Nat.min_id.
+      unfold gf_pids, gf_new, gf_pts. rewrite app_length, map_length, assign_ids_length.
+      assert (HR : length (gf_R s) <= gf_n s) by (unfold gf_R; apply firstn_le_length).
+      unfold gf_asks. destruct (Nat.ltb_spec (length (gf_R s)) (gf_n s)).
+      + specialize (Hask (lst s) (gf_m s)). unfold gf_m in *. unfold gf_n in *. lia.
+      + cbn [length]. unfold gf_n in *. lia.
+    - destruct (process lrn c s done) as [s' [pid|]] eqn:Ep; [rewrite Hstop|sp]; specialize (Hproc _ _ _ Ep); lia.
+    - rewrite Hstop. exact HL.
+    - destruct (c_kind c); [|exact HL].
+      destruct (process lrn c s got) as [s' [pid|]] eqn:Ep; sp; specialize (Hproc _ _ _ Ep); lia.
+  Qed.
+
+  Lemma at_most_ntasks l0 evs : (forall l n, length (fst (l_ask lrn l n)) <= n) ->
+    length (pend (reach l0 evs)) <= M.
+  Proof.
+    intros Hask. unfold Runner.reach.
+    assert (H : forall evs s, Inv s -> LenInv s -> LenInv (run lrn c s evs)).
+    { clear evs. induction evs as [|a evs IH]; intros s HI HL; [exact HL|]. rewrite run_cons.
+      apply IH; [apply Inv_rstep, HI|apply LenInv_rstep; assumption]. }
+    apply H; [apply Inv_init|]. unfold LenInv, init. sp. cbn [length]. lia.
+  Qed.
+
+  (* the pending futures are exactly the evaluations in flight *)
+  Lemma pend_is_inflight l0 evs fid pid :
+    aget fid (pend (reach l0 evs)) = Some pid <->
+    (exists x, In (TSubmit fid pid x) (tr (reach l0 evs))) /\ ~ fdone fid (tr (reach l0 evs)).
+  Proof.
+    pose proof (Inv_reach l0 evs) as HI. split.
+    - intros H. destruct (i_pend_sub HI _ _ H) as (x & _ & Hin & Hnd). split; [exists x; exact Hin|exact Hnd].
+    - intros [(x & Hin) Hnd]. destruct (i_sub_acc HI _ _ _ Hin) as (_ & [(o & Ho)|Hq]); [|exact Hq].
+      exfalso. apply Hnd. exists pid, o. exact Ho.
+  Qed.
+
+  Lemma keeps_full l0 evs : (forall l n, length (fst (l_ask lrn l n)) <= n) ->
+    let s := reach l0 evs in
+    ph s = AtGoal ->
+    (gf_asks s = true -> length (fst (l_ask lrn (lst s) (gf_m s))) = gf_m s) ->
+    length (pend (rstep lrn c s (Goal false))) = M.
+  Proof.
+    intros Hask s Hph Hfull. pose proof (at_most_ntasks l0 evs Hask) as Hle. fold s in Hle.
+    unfold rstep. rewrite Hph. sp.
+    destruct (get_futures_spec s (Inv_reach l0 evs)) as (_ & Fp & _).
+    rewrite Fp, app_length, combine_length, seq_length, Nat.min_id.
+    unfold gf_pids, gf_new, gf_pts. rewrite app_length, map_length, assign_ids_length.
+    unfold gf_asks in *. destruct (Nat.ltb_spec (length (gf_R s)) (gf_n s)).
+    - rewrite (Hfull eq_refl). unfold gf_m, gf_n in *. lia.
+    - cbn [length]. assert (HR : length (gf_R s) <= gf_n s) by (unfold gf_R; apply firstn_le_length).
+      unfold gf_n in *. lia.
+  Qed.
+
+  (* where the reason of a stop comes from *)
+  Definition phw s : option why := match ph s with Stopping w | Stopped w _ => Some w | _ => None end.
+
+  Lemma phw_rstep s (a : ev) w : phw (rstep lrn c s a) = Some w ->
+    phw s = Some w \/ (w = GoalMet /\ a = Goal true) \/ (w = Cancelled /\ a = Cancel) \/ exists p, w = Failed p.
+  Proof.
+    assert (Hstop : forall s0 w0, phw (stop lrn s0 w0) = Some w0).
+    { intros s0 w0. unfold phw. destruct (stop_fields s0 w0) as (_ & _ & _ & _ & _ & _ & _ & _ & _ & Fph).
+      rewrite Fph. destruct (pend s0); reflexivity. }
+    unfold rstep. destruct (ph s) as [| |w0|w0 cl] eqn:Eph; destruct a as [[|]|done| |got];
+      try (unfold phw; rewrite Eph; intros H; left; exact H).
+    - rewrite Hstop. intros [= <-]. auto.
+    - destruct (process lrn c s done) as [s' [pid|]]; [rewrite Hstop; intros [= <-]; eauto 6|unfold phw; sp; discriminate].
+    - rewrite Hstop. intros [= <-]. auto.
+    - unfold phw at 2. rewrite Eph. destruct (c_kind c).
+      + destruct (process lrn c s got) as [s' [pid|]]; unfold phw; sp; intros [= <-]; eauto 6.
+      + unfold phw; sp. intros [= <-]. auto.
+  Qed.
+
+  Lemma phw_run evs : forall s w, phw (run lrn c s evs) = Some w ->
+    phw s = Some w \/ (w = GoalMet /\ In (Goal true) evs) \/ (w = Cancelled /\ In Cancel evs) \/ exists p, w = Failed p.
+  Proof.
+    induction evs as [|a evs IH]; intros s w H; [left; exact H|]. rewrite run_cons in H.
+    destruct (IH _ _ H) as [H1|[[-> H1]|[[-> H1]|H1]]].
+    - destruct (phw_rstep _ _ _ H1) as [H2|[[-> ->]|[[-> ->]|H2]]]; cbn [In]; auto 6.
+    - right. left. split; [reflexivity|right; exact H1].
+    - right. right. left. split; [reflexivity|right; exact H1].
+    - auto.
+  Qed.
+
+  Lemma clean_stop l0 evs w cl :
+    let s := reach l0 evs in
+    ph s = Stopped w cl -> w <> NoWorkers ->
+    (w = GoalMet -> In (Goal true) evs) /\
+    (w = Cancelled -> In Cancel evs) /\
+    (forall p, w = Failed p -> c_raise c = true /\ r < nerr p (tr s)) /\
+    (exists t1 t2, tr s = t1 ++ TRemove :: t2 /\ (forall e, In e t1 -> is_cdt e) /\ (forall e, In e t2 -> not_stop e)) /\
+    (forall fid pid x, In (TSubmit fid pid x) (tr s) ->
+        (exists o, In (TDone fid pid o) (tr s)) \/ In (TCancel fid) (tr s)).
+  Proof.
+    intros s Hph Hw.
+    pose proof (PhInv_reach l0 evs) as HP. pose proof (RaiseInv_reach l0 evs) as HR. pose proof (Inv_reach l0 evs) as HI.
+    fold s in HP, HR, HI. unfold PhInv in HP. unfold RaiseInv in HR. rewrite Hph in HP, HR.
+    assert (Hsh : stop_shape s) by (destruct w; try exact HP; congruence).
+    assert (Horigin : phw s = Some w) by (unfold phw; rewrite Hph; reflexivity).
+    apply phw_run in Horigin.
+    assert (Hinit : phw (init P V c l0) = Some w -> False).
+    { unfold phw, init. sp. destruct (M <? 1); [intros [= <-]; congruence|discriminate]. }
+    split; [intros ->; destruct Horigin as [H|[[_ H]|[[H _]|[p H]]]]; try discriminate; [tauto|exact H]|].
+    split; [intros ->; destruct Horigin as [H|[[H _]|[[_ H]|[p H]]]]; try discriminate; [tauto|exact H]|].
+    split; [intros p ->; exact HR|].
+    destruct Hsh as (t1 & t2 & Ht & H1 & H2 & H3 & _).
+    split; [exists t1, t2; auto|].
+    intros fid pid x Hin. destruct (i_sub_acc HI _ _ _ Hin) as (_ & [Hd|Hq]); [left; exact Hd|right].
+    rewrite Ht. apply in_or_app. left. apply H3. apply aget_In_keys. congruence.
+  Qed.
+
+  (* ---- C06 -------------------------------------------------------------- *)
+  Lemma bounded_retries l0 evs pid : nsub pid (tr (reach l0 evs)) <= r + 1.
+  Proof.
+    pose proof (Inv_reach l0 evs) as HI. set (s := reach l0 evs) in *.
+    destruct (Nat.lt_ge_cases pid (nid s)) as [Hlt|Hge].
+    - destruct (aget pid (idp s)) as [x|] eqn:Ei.
+      + destruct (i_live HI _ _ Ei) as (_ & _ & H3 & H4 & H5 & H6 & H7). unfold E in H3.
+        destruct (aget pid (retry s)) as [k|] eqn:Ek.
+        * destruct (H6 k eq_refl). lia.
+        * destruct (aget pid (tbs s)) eqn:Et; [|lia].
+          assert (cnt pid (pvals s) = 0) by (apply H7; congruence). lia.
+      + destruct (i_told HI _ Hlt Ei) as (_ & _ & H3 & H4). lia.
+    - destruct (i_fresh HI _ Hge) as (H1 & _). lia.
+  Qed.
+
+  Lemma retry_before_new l0 evs :
+    let s := reach l0 evs in
+    ph s = AtGoal ->
+    let s' := rstep lrn c s (Goal false) in
+    tr s' = rev (map sub_ev (gf_subs s)) ++ (if gf_asks s then [TAsk (gf_m s) (gf_new s)] else []) ++ tr s /\
+    map (fun z : nat * nat * P => snd (fst z)) (gf_subs s) = gf_R s ++ map fst (gf_new s) /\
+    (forall p, In p (gf_R s) -> aget p (retry s) <> None /\ cnt p (pvals s) = 0) /\
+    (gf_asks s = false -> gf_new s = []).
+  Proof.
+    intros s Hph s'. unfold s', rstep. rewrite Hph. sp.
+    destruct (get_futures_spec s (Inv_reach l0 evs)) as (_ & _ & Ft & Hpids & _).
+    split; [exact Ft|]. split; [exact Hpids|]. split.
+    - intros p Hp. unfold gf_R in Hp. apply In_firstn in Hp. apply retry_candidates_spec in Hp.
+      destruct Hp as [Hk Hc]. split; [apply aget_In_keys; exact Hk|exact Hc].
+    - intros Ha. unfold gf_new, gf_pts. rewrite Ha. reflexivity.
+  Qed.
+
+  Definition about p e : Prop :=
+    (exists f x, e = TSubmit f p x) \/ (exists f o, e = TDone f p o) \/ (exists x y, e = TTell p x y).
+
+  Lemma told_once_first_success l0 evs later pid x y earlier :
+    tr (reach l0 evs) = later ++ TTell pid x y :: earlier ->
+    (exists fid older, earlier = TDone fid pid (Ok y) :: older /\ nok pid older = 0 /\ ntell pid older = 0) /\
+    (forall e, In e later -> ~ about pid e).
+  Proof.
+    intros Ht. pose proof (i_tr (Inv_reach l0 evs)) as Hs. rewrite all_suffix_split in Hs.
+    destruct (Hs _ _ _ Ht) as (fid & older & -> & Hsub & _ & Hnt). split.
+    - exists fid, older. split; [reflexivity|]. split; [|exact Hnt].
+      assert (Ht2 : tr (reach l0 evs) = (later ++ [TTell pid x y]) ++ TDone fid pid (Ok y) :: older)
+        by (rewrite <- app_assoc; exact Ht).
+      destruct (Hs _ _ _ Ht2) as (_ & _ & _ & Hok). exact Hok.
+    - intros e Hin Hab. apply in_split in Hin. destruct Hin as (l1 & l2 & ->).
+      rewrite <- app_assoc in Ht. cbn [app] in Ht. specialize (Hs _ _ _ Ht).
+      destruct Hab as [(f & x' & ->)|[(f & o & ->)|(x' & y' & ->)]]; cbn [Pe] in Hs.
+      + destruct Hs as (H0 & _). eapply ntell_pos_in; exact H0.
+      + destruct Hs as (H0 & _). eapply ntell_pos_in; exact H0.
+      + destruct Hs as (fid' & older' & Heq & _ & _ & Hnt').
+        destruct l2 as [|a l2]; cbn [app] in Heq; [discriminate|]. inversion Heq; subst.
+        eapply ntell_pos_in; exact Hnt'.
+  Qed.
+
+  Lemma failed_listed l0 evs pid :
+    let s := reach l0 evs in
+    r < nerr pid (tr s) ->
+    aget pid (tbs s) <> None /\ aget pid (retry s) = None /\ In pid (failed s) /\
+    (exists x, aget pid (idp s) = Some x) /\ ~ In pid (pvals s) /\
+    nerr pid (tr s) = r + 1 /\ nsub pid (tr s) = r + 1.
+  Proof.
+    intros s Hlt. pose proof (Inv_reach l0 evs) as HI. fold s in HI.
+    destruct (Nat.lt_ge_cases pid (nid s)) as [Hl|Hge]; [|destruct (i_fresh HI _ Hge) as (_ & H2 & _); lia].
+    destruct (aget pid (idp s)) as [x|] eqn:Ei; [|destruct (i_told HI _ Hl Ei) as (_ & _ & H3 & _); lia].
+    destruct (i_live HI _ _ Ei) as (_ & _ & H3 & H4 & H5 & H6 & H7). unfold E in H3.
+    destruct (aget pid (retry s)) as [k|] eqn:Ek; [destruct (H6 k eq_refl); lia|].
+    destruct (aget pid (tbs s)) as [u|] eqn:Et; [|lia].
+    assert (Hc : cnt pid (pvals s) = 0) by (apply H7; congruence).
+    split; [congruence|]. split; [reflexivity|]. split.
+    - unfold failed. apply filter_In. split; [apply aget_In_keys; congruence|].
+      unfold amem. destruct (nat_mem pid (akeys (retry s))) eqn:Em; [|reflexivity].
+      apply nat_mem_In, aget_In_keys in Em. congruence.
+    - split; [exists x; reflexivity|]. split; [apply cnt_0; exact Hc|]. lia.
+  Qed.
+
+  (* the trace only grows *)
+  Lemma tr_grows_rstep s (a : ev) : Inv s -> exists tn, tr (rstep lrn c s a) = tn ++ tr s.
+  Proof.
+    intros HI. unfold rstep.
+    assert (Hstop : forall s0 w, exists tn, tr (stop lrn s0 w) = tn ++ tr s0).
+    { intros s0 w. destruct (stop_fields s0 w) as (_ & _ & _ & _ & _ & _ & _ & _ & Ft & _).
+      exists (rev (cancels s0) ++ [TRemove]). rewrite Ft, <- app_assoc. reflexivity. }
+    assert (Hproc : forall done s' res, process lrn c s done = (s', res) -> exists tn, tr s' = tn ++ tr s).
+    { intros done s' res Ep. destruct (process_Pr _ _ _ _ HI Ep) as (tn & Ht & _). exists tn. exact Ht. }
+    destruct (ph s) as [| |w|w cl]; destruct a as [[|]|done| |got]; try (exists []; reflexivity); try apply Hstop.
+    - sp. destruct (get_futures_spec s HI) as (_ & _ & Ft & _). rewrite Ft, app_assoc. eexists. reflexivity.
+    - destruct (process lrn c s done) as [s' [pid|]] eqn:Ep; destruct (Hproc _ _ _ Ep) as (tn & Ht).
+      + destruct (Hstop s' (Failed pid)) as (tn' & Ht'). rewrite Ht', Ht, app_assoc. eexists. reflexivity.
+      + sp. exists tn. exact Ht.
+    - destruct (c_kind c); [|exists []; reflexivity].
+      destruct (process lrn c s got) as [s' [pid|]] eqn:Ep; destruct (Hproc _ _ _ Ep) as (tn & Ht); sp; exists tn; exact Ht.
+  Qed.
+
+  Lemma tr_grows_run evs : forall s, Inv s -> exists tn, tr (run lrn c s evs) = tn ++ tr s.
+  Proof.
+    induction evs as [|a evs IH]; intros s HI; [exists []; reflexivity|]. rewrite run_cons.
+    destruct (IH _ (Inv_rstep s a HI)) as (t1 & H1). destruct (tr_grows_rstep s a HI) as (t2 & H2).
+    exists (t1 ++ t2). rewrite H1, H2, app_assoc. reflexivity.
+  Qed.
+
+  (* once failed, failed for ever, and never submitted again *)
+  Lemma failed_for_ever l0 evs1 evs2 pid :
+    r < nerr pid (tr (reach l0 evs1)) ->
+    In pid (failed (reach l0 (evs1 ++ evs2))) /\ nsub pid (tr (reach l0 (evs1 ++ evs2))) = nsub pid (tr (reach l0 evs1)).
+  Proof.
+    intros Hlt. unfold Runner.reach in *. rewrite run_app.
+    destruct (tr_grows_run evs2 _ (Inv_run evs1 _ (Inv_init l0))) as (tn & Ht).
+    assert (Hlt2 : r < nerr pid (tr (run lrn c (run lrn c (init P V c l0) evs1) evs2))).
+    { rewrite Ht. unfold nerr in *. rewrite count_true_app. lia. }
+    rewrite <- run_app in *.
+    destruct (failed_listed l0 (evs1 ++ evs2) pid Hlt2) as (_ & _ & Hf & _ & _ & _ & Hs2).
+    destruct (failed_listed l0 evs1 pid Hlt) as (_ & _ & _ & _ & _ & _ & Hs1).
+    split; [exact Hf|]. unfold Runner.reach in *. lia.
+  Qed.
+
+  Definition failed_phase s p : Prop := ph s = Stopping (Failed p) \/ exists cl, ph s = Stopped (Failed p) cl.
+
+  Lemma raise_or_continue l0 evs :
+    let s := reach l0 evs in
+    (* an error stop happens only with raise_if_retries_exceeded, and carries a pid over the limit *)
+    (forall p, failed_phase s p -> c_raise c = true /\ r < nerr p (tr s)) /\
+    (* with it, a pid over the limit puts the runner into the error stop *)
+    (c_raise c = true -> (exists p, r < nerr p (tr s)) -> exists p', failed_phase s p' /\ r < nerr p' (tr s)) /\
+    (* without it the run continues: processing a wait never raises *)
+    (c_raise c = false -> ph s = InWait -> forall done, ph (rstep lrn c s (Wait done)) = AtGoal).
+  Proof.
+    intros s. pose proof (RaiseInv_reach l0 evs) as HR. fold s in HR. unfold RaiseInv in HR. split; [|split].
+    - intros p [Hp|[cl Hp]]; rewrite Hp in HR; exact HR.
+    - intros Hr (p & Hp). unfold failed_phase.
+      destruct (ph s) as [| |w|w cl]; try (specialize (HR Hr p); lia).
+      + destruct w as [| |p0|]; try (specialize (HR Hr p); lia). exists p0. destruct HR. eauto.
+      + destruct w as [| |p0|]; try (specialize (HR Hr p); lia). exists p0. destruct HR. eauto.
+    - intros Hr Hph done. unfold rstep. rewrite Hph.
+      destruct (process lrn c s done) as [s' [pid|]] eqn:Ep; [|reflexivity].
+      destruct (process_inv (fun _ => True)) with (done := done) (s := s) (s' := s') (res := Some pid) as [_ B];
+        [auto|apply Inv_reach|exact I|exact Ep|].
+      destruct (B pid eq_refl) as (s0 & fid & _ & _ & _ & _ & _ & Hr'). congruence.
+  Qed.
+
+  (* ---- C19 -------------------------------------------------------------- *)
+  Lemma log_is_call_sequence l0 evs :
+    let s := reach l0 evs in
+    lst s = apply_trace l0 (tr s) /\
+    (c_log c = true -> noerr (tr s) -> log_nz (log s) = logv (tr s)).
+  Proof.
+    intros s. destruct (LogInv_reach l0 evs) as [A B C]. split; [exact A|].
+    intros Hl Hne. apply C; assumption.
+  Qed.
+
+  Lemma replay_log_app l lg1 lg2 : replay_log lrn l (lg1 ++ lg2) = replay_log lrn (replay_log lrn l lg1) lg2.
+  Proof. apply fold_left_app. Qed.
+
+  Lemma replay_log_nz l lg : (forall l', snd (l_ask lrn l' 0) = l') -> replay_log lrn l lg = replay_log lrn l (log_nz lg).
+  Proof.
+    intros H0. revert l. induction lg as [|e lg IH]; intros l; [reflexivity|].
+    cbn [log_nz filter]. destruct e as [[|n]|x y]; cbn [nz].
+    - change (replay_log lrn l (LAsk 0 :: lg)) with (replay_log lrn (snd (l_ask lrn l 0)) lg). rewrite H0. apply IH.
+    - change (replay_log lrn l (LAsk (S n) :: lg)) with (replay_log lrn (snd (l_ask lrn l (S n))) lg).
+      change (replay_log lrn l (LAsk (S n) :: filter nz lg)) with (replay_log lrn (snd (l_ask lrn l (S n))) (filter nz lg)).
+      apply IH.
+    - change (replay_log lrn l (LTell x y :: lg)) with (replay_log lrn (l_tell lrn l x y) lg).
+      change (replay_log lrn l (LTell x y :: filter nz lg)) with (replay_log lrn (l_tell lrn l x y) (filter nz lg)).
+      apply IH.
+  Qed.
+
+  (* replaying the calls of a trace that contains no remove_unfinished *)
+  Lemma replay_logv l t : (forall e, In e t -> e <> TRemove) -> replay_log lrn l (logv t) = apply_trace l t.
+  Proof.
+    induction t as [|e t IH]; intros H; [reflexivity|]. cbn [logv apply_trace fold_right].
+    fold (apply_trace l t). rewrite replay_log_app, IH by (intros a Ha; apply H; right; exact Ha).
+    destruct e; try reflexivity. exfalso. apply (H TRemove); [left|]; reflexivity.
+  Qed.
+
+  Lemma replay_same_state l0 evs :
+    let s := reach l0 evs in
+    c_log c = true -> noerr (tr s) -> (forall l, snd (l_ask lrn l 0) = l) ->
+    match ph s with
+    | AtGoal | InWait | Stopped NoWorkers _ => lst s = replay_log lrn l0 (log s)
+    | _ => exists lg1 lg2, log_nz (log s) = lg1 ++ lg2 /\
+                           lst s = replay_log lrn (l_remove lrn (replay_log lrn l0 lg1)) lg2 /\
+                           (forall a : logent P V, In a lg2 -> exists x y, a = LTell x y) /\
+                           (c_kind c = Async -> lg2 = [])
+    end.
+  Proof.
+    intros s Hl Hne H0. destruct (log_is_call_sequence l0 evs) as [A B]. fold s in A, B.
+    specialize (B Hl Hne). pose proof (PhInv_reach l0 evs) as HP. fold s in HP. unfold PhInv in HP.
+    assert (Hrun : (forall e, In e (tr s) -> not_stop e) -> lst s = replay_log lrn l0 (log s)).
+    { intros Hns. rewrite (replay_log_nz _ _ H0), B, replay_logv; [exact A|]. intros e He. apply Hns. exact He. }
+    assert (Hshape : stop_shape s -> exists lg1 lg2, log_nz (log s) = lg1 ++ lg2 /\
+                           lst s = replay_log lrn (l_remove lrn (replay_log lrn l0 lg1)) lg2 /\
+                           (forall a : logent P V, In a lg2 -> exists x y, a = LTell x y) /\ (c_kind c = Async -> lg2 = [])).
+    { intros (t1 & t2 & Ht & H1 & H2 & _ & H4). exists (logv t2), (logv t1).
+      assert (Hn1 : forall e, In e t1 -> e <> TRemove).
+      { intros e He. destruct (H1 e He) as [(f & ->)|[(f & q & o & ->)|(q & x & y & ->)]]; discriminate. }
+      split; [rewrite B, Ht, logv_app; cbn [logv proj]; rewrite app_nil_r; reflexivity|].
+      split.
+      - rewrite A, Ht, apply_trace_app. cbn [apply_trace fold_right apply_tev]. fold (apply_trace l0 t2).
+        rewrite !replay_logv; [reflexivity|intros e He; apply H2; exact He|exact Hn1].
+      - split.
+        + clear Ht H4 Hn1. induction t1 as [|a t1 IH]; cbn [logv]; [intros e []|].
+          intros e He. apply in_app_or in He. destruct He as [He|He].
+          * apply IH; [intros e' He'; apply H1; right; exact He'|exact He].
+          * destruct (H1 a (or_introl eq_refl)) as [(f & ->)|[(f & q & o & ->)|(q & x & y & ->)]];
+              cbn [proj In] in He; try tauto. destruct He as [<-|[]]. eauto.
+        + intros Ha. specialize (H4 Ha). clear Ht Hn1 H1. induction t1 as [|a t1 IH]; cbn [logv]; [reflexivity|].
+          rewrite IH by (intros e He; apply H4; right; exact He).
+          destruct (H4 a (or_introl eq_refl)) as (f & ->). reflexivity. }
+    destruct (ph s) as [| |w|w cl].
+    - apply Hrun. exact HP.
+    - apply Hrun. exact HP.
+    - destruct HP as (_ & Hsh & _). destruct w; apply Hshape; exact Hsh.
+    - destruct w; try (apply Hshape; exact HP). destruct HP as [Ht _]. apply Hrun. rewrite Ht. intros e [].
+  Qed.
+
+  (* with a learner for which remove_unfinished commutes with tell (and is
+     idempotent): the replayed learner equals the original after discarding *)
+  Lemma replay_same_after_discard l0 evs :
+    let s := reach l0 evs in
+    c_log c = true -> noerr (tr s) -> (forall l, snd (l_ask lrn l 0) = l) ->
+    (forall l x y, l_remove lrn (l_tell lrn l x y) = l_tell lrn (l_remove lrn l) x y) ->
+    (forall l, l_remove lrn (l_remove lrn l) = l_remove lrn l) ->
+    l_remove lrn (lst s) = l_remove lrn (replay_log lrn l0 (log s)).
+  Proof.
+    intros s Hl Hne H0 Hcomm Hidem. pose proof (replay_same_state l0 evs Hl Hne H0) as H. fold s in H.
+    assert (Htells : forall lg2, (forall a : logent P V, In a lg2 -> exists x y, a = LTell x y) ->
+              forall l, l_remove lrn (replay_log lrn l lg2) = replay_log lrn (l_remove lrn l) lg2).
+    { induction lg2 as [|e lg2 IH]; intros Hall l; [reflexivity|].
+      destruct (Hall e (or_introl eq_refl)) as (x & y & ->).
+      change (replay_log lrn l (LTell x y :: lg2)) with (replay_log lrn (l_tell lrn l x y) lg2).
+      change (replay_log lrn (l_remove lrn l) (LTell x y :: lg2)) with (replay_log lrn (l_tell lrn (l_remove lrn l) x y) lg2).
+      rewrite IH by (intros e He; apply Hall; right; exact He). rewrite Hcomm. reflexivity. }
+    assert (Hgen : (exists lg1 lg2, log_nz (log s) = lg1 ++ lg2 /\
+                           lst s = replay_log lrn (l_remove lrn (replay_log lrn l0 lg1)) lg2 /\
+                           (forall a : logent P V, In a lg2 -> exists x y, a = LTell x y) /\ (c_kind c = Async -> lg2 = [])) ->
+                   l_remove lrn (lst s) = l_remove lrn (replay_log lrn l0 (log s))).
+    { intros (lg1 & lg2 & Hlog & Hlst & Hall & _).
+      rewrite (replay_log_nz _ _ H0), Hlog, replay_log_app, Hlst, !(Htells lg2 Hall), Hidem. reflexivity. }
+    destruct (ph s) as [| |w|w cl]; try (rewrite H; reflexivity); try (apply Hgen; exact H).
+    destruct w; try (apply Hgen; exact H). rewrite H. reflexivity.
+  Qed.
+End RunnerProofs.
+
+Arguments nsub {P V}. Arguments nerr {P V}. Arguments nok {P V}. Arguments ntell {P V}.
+Arguments pvals {P V L}.
+Arguments gf_n {P V L}. Arguments gf_R {P V L}. Arguments gf_m {P V L}. Arguments gf_asks {P V L}.
+Arguments gf_pts {P V L}. Arguments gf_new {P V L}. Arguments gf_pids {P V L}. Arguments gf_subs {P V L}.
+Arguments sub_ev {P V}. Arguments about {P V}. Arguments noerr {P V}. Arguments logv {P V}. Arguments log_nz {P V}.
+Arguments apply_trace {P V L}. Arguments failed_phase {P V L}.
